@@ -119,7 +119,7 @@ def allowed(stmt, core_parts, out_parts=None):
         return s_or(a, b)
     level, comps = stmt
     if level > 0:
-        return True
+        return True  # resolved by relative_ok() where the importing file's place in the package is known
     if not comps:
         return False
     first = comps[0]
@@ -145,17 +145,27 @@ def allowed(stmt, core_parts, out_parts=None):
     return s_and(*[sb(x) for x in conj])
 
 
-def verdict_texts(texts, core, out=None):
+def relative_ok(level, here, top):
+    """a relative import of `level` dots in a module whose package is `here` (components from the import root) stays inside
+    the emitted package `top` (a prefix of `here`): Python refuses to climb above the top-level package, and anything
+    between the import root and the emitted package is not the emitted package"""
+    return level <= len(here) and len(here) - (level - 1) >= len(top)
+
+
+def verdict_texts(texts, core, out=None, rels=None, top=("pkg",)):
     core_parts = [_simp(p) for p in core.split(".")]
     out_parts = [_simp(p) for p in out.split(".")] if out is not None else None
     from symx.core import s_and
 
     cond = True
-    for t in texts:
+    for k, t in enumerate(texts):
         stmts, err = import_statements(t)
         if stmts is None:
             return False, "does not lex: %s" % err
+        here = (list(top) + rels[k].split("/")[:-1]) if rels and len(rels) == len(texts) else None
         for st in stmts:
+            if st[0] > 0 and here is not None and not relative_ok(st[0], here, top):
+                return False, "relative import `from %s%s` in %s climbs out of the emitted package %s" % ("." * st[0], ".".join(pysig.show(c) for c in st[1]), rels[k], ".".join(top))
             a = allowed(st, core_parts, out_parts)
             if a is False:
                 return False, "import of %r" % (".".join(pysig.show(c) for c in st[1]),)
@@ -199,6 +209,31 @@ def _model_relative_path(P):
         return out
 
     rc.RenderContext.calculate_relative_path_for_internal_module = calc
+    real_core = rc.RenderContext._calculate_relative_core_path
+
+    def core_calc(self, submodule):
+        """_calculate_relative_core_path for a SYMBOLIC core package name (the real one goes through pathlib and swallows
+        every exception, including the engine's, into its absolute-import fallback)"""
+        core = self.core_package_name
+        if not (is_sym(core) and not core.is_concrete()):
+            return real_core(self, submodule)
+        if not self.current_file or not self.package_root_for_generated_code or not self.overall_project_root:
+            return real_core(self, submodule)
+        cur = memfs.parse(self.current_file)
+        tparts = tuple(memfs.parse(self.overall_project_root)) + (_simp(core),) + tuple(submodule.split("."))
+        rel = memfs.relpath_parts(tparts, cur[:-1])
+        dots, parts = 0, []
+        for x in rel:
+            if isinstance(x, str) and x == "..":
+                dots += 1
+            elif not (isinstance(x, str) and x == "."):
+                parts.append(x)
+        out = "." * (dots + 1)
+        for i, x in enumerate(parts):
+            out = out + ("." if i else "") + x
+        return out
+
+    rc.RenderContext._calculate_relative_core_path = core_calc
     _CALC[P.__name__] = True
 
 
@@ -208,9 +243,12 @@ def _render_site(P, site, core, out=None):
     rc = import_module(P.__name__ + ".context.render_context")
     saved = c15._ctx
 
+    rels = []
+
     def ctx(P2, rel):
         c = rc.RenderContext(core_package_name=core, package_root_for_generated_code="/tmp/x/pkg", overall_project_root="/tmp/x", output_package_name=out)
         c.set_current_file("/tmp/x/pkg/" + rel)
+        rels.append(rel)
         return c
 
     c15._ctx = ctx
@@ -218,9 +256,14 @@ def _render_site(P, site, core, out=None):
         return kernel(P, c15.marker(3))
     finally:
         c15._ctx = saved
+        RELS[site] = list(rels)
 
 
-def _render_shape(P, body, resp, core, out=None):
+RELS = {}
+SHAPE_RELS = ["endpoints/things.py", "mocks/endpoints/mock_things.py"]
+
+
+def _render_shape(P, body, resp, core, out=None, nested=False):
     _model_relative_path(P)
     rc = import_module(P.__name__ + ".context.render_context")
     real = rc.RenderContext
@@ -230,6 +273,10 @@ def _render_shape(P, body, resp, core, out=None):
             kw["core_package_name"] = core
             if out is not None:
                 kw["output_package_name"] = out
+            if nested:
+                # the client is the nested package x.pkg: the project root lies two directories above its files
+                kw["overall_project_root"] = "/tmp"
+                kw["output_package_name"] = "x.pkg"
             real.__init__(self, **kw)
 
     ee = import_module(P.__name__ + ".emitters.endpoints_emitter")
@@ -245,9 +292,9 @@ class ImportScan(Obligation):
     alphabet = PKG
     timeout_ms = 30000
 
-    def __init__(self, kind, what, n, with_out=False):
-        self.kind, self.what, self.n, self.with_out = kind, what, n, with_out
-        self.name = "import_scan/%s/%s/core_len=%d%s" % (kind, what, n, "/nested_output_package" if with_out else "")
+    def __init__(self, kind, what, n, with_out=False, nested=False):
+        self.kind, self.what, self.n, self.with_out, self.nested = kind, what, n, with_out, nested
+        self.name = "import_scan/%s/%s/core_len=%d%s%s" % (kind, what, n, "/nested_output_package" if with_out else "", "/nested_layout" if nested else "")
         self.functions = (c15.SITES[what][3] if kind == "site" else c13sig.SigParity.functions) + [
             "pyopenapi_gen.context.render_context:RenderContext.add_import", "pyopenapi_gen.context.import_collector:ImportCollector.get_formatted_imports"]
         self.bounds = {"module": what, "core_package_name": "symbolic dotted name, %d characters over 'k q .'" % n}
@@ -270,7 +317,7 @@ class ImportScan(Obligation):
         if self.kind == "site":
             return call_catching(_render_site, P, self.what, inp["core"], inp.get("out"))
         body, resp = self.what.split("+")
-        return call_catching(_render_shape, P, body, resp, inp["core"], inp.get("out"))
+        return call_catching(_render_shape, P, body, resp, inp["core"], inp.get("out"), self.nested)
 
     def run_sym(self, inp):
         return self._run(_I(), inp)
@@ -284,17 +331,22 @@ class ImportScan(Obligation):
     def prop(self, inp, r):
         if isinstance(r, Raised) or r is None:
             return True
-        return verdict_texts(r, inp["core"], inp.get("out"))[0]
+        return self._verdict(inp, r)[0]
+
+    def _verdict(self, inp, r):
+        if self.kind == "site":
+            return verdict_texts(r, inp["core"], inp.get("out"), RELS.get(self.what))
+        return verdict_texts(r, inp["core"], "x.pkg" if self.nested else inp.get("out"), SHAPE_RELS, ("x", "pkg") if self.nested else ("pkg",))
 
     def describe_violation(self, inp, r):
         if isinstance(r, Raised) or r is None:
             return "rendering raised"
         return "core package %r%s, module %s: %s" % (_simp(inp["core"]), (", output package %r" % _simp(inp["out"])) if inp.get("out") is not None else "", self.what,
-                                                     verdict_texts(r, inp["core"], inp.get("out"))[1])
+                                                     self._verdict(inp, r)[1])
 
 
-def mk_scan(kind, what, n, with_out=False):
-    return ImportScan(kind, what, n, with_out)
+def mk_scan(kind, what, n, with_out=False, nested=False):
+    return ImportScan(kind, what, n, with_out, nested)
 
 
 # ------------------------------------------------------------------ K2
@@ -560,6 +612,9 @@ def specs(tier):
     for sh in SHAPES:
         for n in ((1, 3) if q else (1, 3, 4)):
             out.append((MOD, "mk_scan", ("shape", sh, n)))
+    # the client as nested package x.pkg, project root two directories up: relative imports must not climb out of it
+    for sh in SHAPES[:2] if q else SHAPES:
+        out.append((MOD, "mk_scan", ("shape", sh, 1, False, True)))
     # nested output package with a top-level core whose name may begin like the package's last segment
     for site in ("model.class_description", "model.json_wrapper_description", "endpoint.summary", "client.title"):
         out.append((MOD, "mk_scan", ("site", site, 2, True)))
